@@ -482,7 +482,9 @@ def do_setup():
             print("translator failed")
             return 1
         rc, out = step_make([], timeout=7000)
-        print(out[-6000:])
+        for f, l, t in re.findall(r'File "\./([^"]+)", line (\d+)[^\n]*\n((?:.*\n){0,8})', out)[:10]:
+            print("COQ ERROR %s:%s\n%s" % (f, l, t[:1500]))
+        print(out[-3000:])
         if rc != 0:
             print("coq build failed")
             return 1
